@@ -7,7 +7,7 @@ vcheck binary is pointed at it with VERIF_REPO, so /repo and /verif/evidence are
 seeds run in parallel.  --in-repo applies the patch to /repo itself (git apply / git checkout -- .), one
 seed at a time, exactly as the registered commands would see it.
 
-usage: run_seeded.py [--in-repo] [--jobs N] [name-prefix ...]
+usage: run_seeded.py [--in-repo] [--jobs N] [--dir <seed root>] [name-prefix ...]
 """
 import json, glob, os, subprocess, sys, re, time
 from concurrent.futures import ThreadPoolExecutor
@@ -17,6 +17,9 @@ in_repo = '--in-repo' in args
 jobs = 3
 if '--jobs' in args:
     jobs = int(args[args.index('--jobs') + 1]); del args[args.index('--jobs'):args.index('--jobs') + 2]
+seed_root = f'{V}/seeded'
+if '--dir' in args:  # candidates not yet kept under /verif/seeded
+    seed_root = args[args.index('--dir') + 1]; del args[args.index('--dir'):args.index('--dir') + 2]
 only = [a for a in args if not a.startswith('--')]
 
 def sh(cmd, **kw): return subprocess.run(cmd, shell=True, capture_output=True, text=True, **kw)
@@ -55,7 +58,7 @@ def one(d):
     print(name, res.get('status'), res.get('reported_by'), flush=True)
     return name, res
 
-dirs = [d for d in sorted(glob.glob(f'{V}/seeded/*/')) if os.path.exists(d + 'meta.json')
+dirs = [d for d in sorted(glob.glob(f'{seed_root}/*/')) if os.path.exists(d + 'meta.json')
         and (not only or any(os.path.basename(d.rstrip('/')).startswith(o) for o in only))]
 if in_repo:
     assert sh('git -C /repo status --porcelain --untracked-files=no').stdout.strip() == '', 'repo not clean'
@@ -65,7 +68,7 @@ else:
     with ThreadPoolExecutor(jobs) as ex:
         results = list(ex.map(one, dirs))
     sh('git -C /repo worktree prune')
-p = f'{V}/seeded/results.json'
+p = f'{seed_root}/results.json'
 old = json.load(open(p)) if os.path.exists(p) else {}
 old.update(dict(results))
 json.dump(old, open(p, 'w'), indent=1, sort_keys=True)
